@@ -7,6 +7,7 @@
 import PvModel.Proofs.Stream
 import PvModel.Proofs.Always
 import PvModel.Props.C02
+import PvModel.Proofs.FDExact
 namespace Pv
 open Strm Goal
 
@@ -109,6 +110,18 @@ theorem C09_next_functional (top : Goal St K → St → Strm St K) (n m : Nat) (
   rw [Nat.add_comm] at b
   rw [a] at b
   exact Option.some.inj b
+
+/-! ### hash-iteration order and finite-domain programs -/
+
+/-- the valuations described by the state a constraint program reaches do not depend on the iteration order
+    of the hash-based constraint store / domain store / extension (two runs with different hash seeds: `ord`,
+    `ord'`): same program, same described solutions — the set-level part of "deterministic across
+    processes" for programs whose propagation order depends on hash iteration -/
+theorem C09_order_independent_fd {ord ord' : Order} (ho : OrderOK ord) (ho' : OrderOK ord') (n : Nat)
+    (as : List FAtom) (hok : ∀ a ∈ as, a.OK) (st1 st2 : State)
+    (h1 : postAllF ord (State.empty n) as = .ok st1) (h2 : postAllF ord' (State.empty n) as = .ok st2) (γ : Subst) :
+    Sem NoI γ st1 ↔ Sem NoI γ st2 := (fd_order_free ho ho' n as as (List.Perm.refl _) hok).1 st1 st2 h1 h2 γ
+
 
 section Examples
 private def defs0 : Unit → Nat → Nat × Goal Nat Unit := fun _ a => (a, .fail)
